@@ -261,3 +261,49 @@ def attr_kind(name, v):
     if name in DATE_ATTRS: return 'date'
     if name == 'CKA_ALLOWED_MECHANISMS': return 'mechset'
     return None
+
+# ---------------------------------------------------------------- one executor on one token directory, with restarts
+SO = b'so\x00pin\xff-c05'; USER = b'\xffuser\x00pin-c05'
+class Lib:
+    """one executor on one token directory, with restarts"""
+    def __init__(s, job, d, backend, cfg='asan', extra=''):
+        from ck import CK
+        from walkcheck import make_new_exec
+        s.ck = CK(job['hdr']); s.new_exec = make_new_exec(job['paths'], s.ck); s.cfg = cfg; s.d = d; s.backend = backend; s.extra = extra; s.x = None; s.universe = attr_universe(s.ck)
+    def start(s):
+        s.x = s.new_exec(s.cfg, s.d, s.backend, s.extra, reuse_dir=True); s.x.timeout = 300
+        r = s.x.call('C_Initialize', locking='os'); assert r['rv'] == 0, r
+    def stop(s):
+        if s.x is not None:
+            try: s.x.call('C_Finalize'); s.x.close()
+            except Exception: s.x.kill()
+            s.x = None
+    def restart(s, kind):
+        if kind == 'reinit':
+            r = s.x.call('C_Finalize'); assert r['rv'] == 0, r
+            r = s.x.call('C_Initialize', locking='os'); assert r['rv'] == 0, r
+        else: s.stop(); s.start()
+    def init_token(s, label, so=SO, user=USER):
+        slot = s.x.call('C_GetSlotList', count=32)['slots'][-1]
+        r = s.x.call('C_InitToken', slot=slot, pin=so.hex(), label=label.hex()); assert r['rv'] == 0, r
+        h = s.x.call('C_OpenSession', slot=slot)['h']
+        assert s.x.call('C_Login', s=h, user=0, pin=so.hex())['rv'] == 0; assert s.x.call('C_InitPIN', s=h, pin=user.hex())['rv'] == 0
+        s.x.call('C_Logout', s=h); s.x.call('C_CloseSession', s=h); s.x.call('C_GetSlotList', null=True)
+    def tokens(s):
+        """[(slot, token info)] of initialised tokens"""
+        out = []
+        for slot in s.x.call('C_GetSlotList', count=32)['slots']:
+            ti = s.x.call('C_GetTokenInfo', slot=slot)
+            if ti['rv'] == 0 and ti['flags'] & s.ck.CKF_TOKEN_INITIALIZED: out.append((slot, ti))
+        return out
+    def slot_of(s, label):
+        for slot, ti in s.tokens():
+            if bytes.fromhex(ti['label']).rstrip(b' ') == label: return slot
+        return None
+    def login(s, label, pin=USER, user=1):
+        slot = s.slot_of(label)
+        if slot is None: return None
+        h = s.x.call('C_OpenSession', slot=slot)['h']; r = s.x.call('C_Login', s=h, user=user, pin=pin.hex())
+        return h if r['rv'] == 0 else None
+    def read(s, h, o): return read_object(s.x, h, o, s.ck, s.universe)
+
